@@ -115,6 +115,25 @@ Proof.
   vm_compute. repeat split; reflexivity.
 Qed.
 
+(* ---- the tie to the source text (gen/SrcFill.v, regenerated on every run from schedule.py): the backward search
+   for the latest day with free capacity (the caller adds one day to its result) and the backward fill of
+   BackwardScheduler, translated from their current source text, are the model's [bwd_nearest] / [bwd_shift] *)
+From Coq Require Import QArith.
+From PJ Require Import Cal.Calendar gen.SrcFill Sched.SrcFillEquiv Sched.SrcFillInv.
+Open Scope Z_scope.
+
+Theorem C09_src_bwd_nearest : forall cfg l r t t0, pos_rows l ->
+  (do e <- src_bwd_nearest (balance cfg) (nearest_of (cap cfg r) (h_search cfg)) (gau_of (cap cfg r)) r (qrows_of l) t0 t
+                           (Z.of_nat (h_near cfg)); Ok (e + DAY))
+  = bwd_nearest cfg l r t t0.
+Proof. exact src_bwd_nearest_eq. Qed.
+
+Theorem C09_src_bwd_shift : forall cfg l r t e0 left, pos_rows l -> 0 <= left ->
+  src_bwd_shift (balance cfg) (nearest_of (cap cfg r) (h_search cfg)) (gau_of (cap cfg r)) r (qrows_of l) e0 t
+                (inject_Z left) (Z.of_nat (h_fill cfg))
+  = lift_shift (bwd_shift cfg l r t e0 left).
+Proof. exact src_bwd_shift_eq. Qed.
+
 Print Assumptions C09_deadline.
 Print Assumptions C09_deps.
 Print Assumptions C09_deps_below.
@@ -126,3 +145,5 @@ Print Assumptions C09_oracle_meaning.
 Print Assumptions C09_oracle_meaning_all.
 Print Assumptions C09_backward_passes_oracle.
 Print Assumptions C09_example.
+Print Assumptions C09_src_bwd_nearest.
+Print Assumptions C09_src_bwd_shift.
